@@ -230,6 +230,124 @@ class Interp:
             ctx.add(Lin.sym(L) - prev)
             ctx.add(Lin(LEN_MAX) - Lin.sym(L))
 
+    def chain_vals(self, ctx, vals):
+        """assume the cursor chain 0 <= v1 <= ... <= vn <= len over linear forms (some fresh, some kept)"""
+        prev = Lin(0)
+        for v in vals:
+            ctx.add(v - prev)
+            prev = v
+        if self.len_of:
+            L = "len(%s)" % self.len_of
+            ctx.nonneg.add(L)
+            ctx.add(Lin.sym(L) - prev)
+            ctx.add(Lin(LEN_MAX) - Lin.sym(L))
+
+    def havoc_cursors(self, st, written=None):
+        """Forget the cursors a loop / callee may have written (all of them when `written` is None) and re-assume the chain; cursors
+        that provably are not written keep their current linear form (frame condition)."""
+        heap = st["heap"]
+        keep = {}
+        if written is not None:
+            for f in self.cursors:
+                if f not in written and isinstance(heap.get(f), Lin):
+                    keep[f] = heap[f]
+        vals = []
+        new_heap = {}
+        for f in self.cursors:
+            if f in keep:
+                v = keep[f]
+            else:
+                sname = "%s@%d" % (f, next(self.fresh))
+                st["ctx"].nonneg.add(sname)
+                v = Lin.sym(sname)
+            new_heap[f] = v
+            vals.append(v)
+        self.chain_vals(st["ctx"], vals)
+        st["heap"] = new_heap
+        st["regions"] = {}
+
+    # -- frame conditions: which fields of `self` a method of this crate may write -----------------------------
+    def frame_fields(self, name, _seen=None):
+        """Set of `self` field names that the crate function `name` (taking self by reference as its first argument) may write, directly or
+        through crate functions it hands self to; None when that cannot be bounded (self escapes to code without a body here)."""
+        cache = self.__dict__.setdefault("_frames", {})
+        if name in cache:
+            return cache[name]
+        _seen = _seen or set()
+        if name in _seen:
+            return set()
+        _seen = _seen | {name}
+        b = self.facts.body(name, required=False)
+        if b is None:
+            cache[name] = None
+            return None
+        out = self._frame_of_blocks(b, range(len(b.blocks)), _seen)
+        cache[name] = out
+        return out
+
+    def _frame_of_blocks(self, b, blocks, _seen=frozenset()):
+        # locals that alias self (reborrows / copies of the receiver)
+        alias = {1}
+        changed = True
+        while changed:
+            changed = False
+            for blk in b.blocks:
+                for s_ in blk["st"]:
+                    if s_["k"] != "assign" or s_["place"].get("p"):
+                        continue
+                    rv = s_["rv"]
+                    src = None
+                    if rv["k"] in ("ref", "rawptr") and all("deref" in e for e in rv["place"].get("p", [])):
+                        src = rv["place"]["l"]
+                    elif rv["k"] == "use":
+                        pl = rv["op"].get("move") or rv["op"].get("copy")
+                        if pl is not None and not pl.get("p"):
+                            src = pl["l"]
+                    if src in alias and s_["place"]["l"] not in alias:
+                        alias.add(s_["place"]["l"])
+                        changed = True
+        fields = set()
+
+        def first_field(pl):
+            fl = [e for e in pl.get("p", []) if "f" in e]
+            return fl[0].get("n", fl[0]["f"]) if fl else None
+        for bi in blocks:
+            blk = b.blocks[bi]
+            for s_ in blk["st"]:
+                if s_["k"] != "assign":
+                    continue
+                pl = s_["place"]
+                if pl["l"] in alias and first_field(pl) is not None:
+                    fields.add(first_field(pl))
+                rv = s_["rv"]
+                if rv["k"] in ("ref", "rawptr") and rv.get("bk") == "mut" and rv["place"]["l"] in alias and first_field(rv["place"]) is not None:
+                    fields.add(first_field(rv["place"]))
+            t = blk["t"]
+            if t["k"] == "call":
+                d = t.get("dest")
+                if d is not None and d["l"] in alias and first_field(d) is not None:
+                    fields.add(first_field(d))
+                passes_self = False
+                for a in t["args"]:
+                    pl = a.get("move") or a.get("copy")
+                    if pl is not None and pl["l"] in alias and first_field(pl) is None:
+                        passes_self = True
+                if passes_self:
+                    f_ = t["func"]
+                    cname = F.norm(f_["res"]["path"]) if f_.get("res") else F.norm(f_.get("path", ""))
+                    if (t.get("sp") or {}).get("n") or in_debug_assert(t.get("sp") or t.get("fsp")):
+                        continue        # logging / debug assertions read, never write
+                    sub = self.frame_fields(cname, _seen) if cname else None
+                    if sub is None:
+                        # a shared reborrow handed to foreign code cannot write; a unique one can
+                        first = t["args"][0].get("move") or t["args"][0].get("copy") if t["args"] else None
+                        ty = ty_str(b.locals[first["l"]]["ty"]) if first is not None else ""
+                        if ty.startswith("&") and not ty.startswith("&mut") and "&mut" not in ty[:6]:
+                            continue
+                        return None
+                    fields |= sub
+        return fields
+
     def entry(self):
         ctx = Ctx()
         self.chain(ctx, self.cursors)
@@ -553,6 +671,32 @@ class Interp:
         return [[a - b - 1], [b - a - 1]]
 
     # -- loops ------------------------------------------------------------------------------------------
+    def _loop_blocks(self, body, head):
+        """blocks of the strongly connected component that contains the loop head"""
+        n = len(body.blocks)
+        succ = {b: body.succs(b) for b in range(n)}
+        # forward reachable from head, and can reach head
+        fwd, stack = set(), [head]
+        while stack:
+            v = stack.pop()
+            for w in succ[v]:
+                if w not in fwd:
+                    fwd.add(w)
+                    stack.append(w)
+        pred = {b: [] for b in range(n)}
+        for a, ws in succ.items():
+            for w in ws:
+                pred[w].append(a)
+        bwd, stack = set(), [head]
+        while stack:
+            v = stack.pop()
+            for w in pred[v]:
+                if w not in bwd:
+                    bwd.add(w)
+                    stack.append(w)
+        comp = (fwd & bwd) | {head}
+        return sorted(comp) if head in fwd else []
+
     def loop_info(self, body):
         k = id(body)
         if k in self._loops:
@@ -702,9 +846,12 @@ class Interp:
                 # havoc: everything the loop may change is forgotten; the invariant is all that is known
                 assigned, loop_fields = heads[bb]
                 if self.cursors or loop_fields is None:
-                    syms = ["%s@%d" % (f, next(self.fresh)) for f in self.cursors]
-                    self.chain(st["ctx"], syms)
-                    st["heap"] = {f: Lin.sym(s) for f, s in zip(self.cursors, syms)}
+                    # (cursors the loop provably never writes -- neither directly nor through the crate methods it hands self to -- keep their value)
+                    written = None
+                    if self.cursors and st["env"].get(1) == ('self',):
+                        comp = self._loop_blocks(body, bb)
+                        written = self._frame_of_blocks(body, comp, frozenset({body.npath})) if comp else None
+                    self.havoc_cursors(st, written)
                 else:
                     # only what the loop can change is forgotten
                     for fl in loop_fields:
